@@ -5,7 +5,7 @@ HERE = os.path.dirname(os.path.abspath(__file__))
 sys.path.insert(0, os.path.join(os.path.dirname(HERE), "mirsym"))
 sys.path.insert(0, os.path.join(os.path.dirname(HERE), "mirsym", "harness"))
 
-MODULES = ["h_vmops", "h_types", "h_asm", "h_bytecode", "h_graph", "h_vmctl", "h_check", "h_vmio", "h_compute", "h_lock", "h_hash", "h_levels"]
+MODULES = ["h_vmops", "h_types", "h_asm", "h_bytecode", "h_graph", "h_vmctl", "h_check", "h_vmio", "h_compute", "h_lock", "h_hash", "h_levels", "h_crypto"]
 
 
 def select(pid, tier):
